@@ -67,9 +67,24 @@ class C06(Prop):
         m = re.search(r"pending=\[([^\]]*)\]", impl)
         pend = [p for p in (m.group(1).split(",") if m and m.group(1) else [])]
         hang = []
+        # the peer's control stream (first octet 0x00 delivered) finished or reset by the script: a closed critical
+        # stream must end accept / wait_idle with H3_CLOSED_CRITICAL_STREAM, whatever else the endpoint waits for
+        ctl_ended = False
+        seen = {}
+        for op in ops:
+            m = re.match(r"^s(\d+):([0-9a-f]+)$", op)
+            if m and int(m.group(1)) % 4 in (2, 3):
+                seen.setdefault(int(m.group(1)), "")
+                seen[int(m.group(1))] += m.group(2)
+            m = re.match(r"^[fr](\d+)", op)
+            if m and seen.get(int(m.group(1)), "").startswith("00"):
+                ctl_ended = True
         for p in pend:
             task, cmd = p.split(".", 1)
             if closed:
+                hang.append(p)
+                continue
+            if ctl_ended and p in ("conn.A", "drv.W"):
                 hang.append(p)
                 continue
             mm = re.match(r"^[qw](\d+)s?$", task)
